@@ -30,7 +30,7 @@ EXPLANATION = "hygiene scan of every tree emitted in the symbolic runs of the re
 EMITTERS = {
     "suites.c01": ["wrappers", "module", "simple_statements"],
     "suites.c05": ["interrupts", "while", "for", "function_frame"],
-    "suites.c06": ["access_function", "access_class", "access_global", "transform_names"],
+    "suites.c06": ["access_function", "access_class", "access_global", "transform_names", "declared_global_under_a_shadow"],
     "suites.c07": ["functiondef", "classdef", "if", "return", "assign:statement"],
     "suites.c12": ["class_shape", "methods"],
     "suites.c13": ["assign_tuple_list", "leaf_targets", "augassign", "convert_slice", "get_result"],
